@@ -22,7 +22,7 @@ TolMs == 2      \* every logged time is rounded to 1 ms: a difference of two of 
 TInit == /\ l = 1 /\ viol = <<>> /\ hdr = <<>> /\ trs = <<>> /\ est = <<>> /\ prev = <<>> /\ phase = "setup"
          /\ stats = [cases |-> 0, nets |-> 0, walks |-> 0, snaps |-> 0, results_ok |-> 0, results_err |-> 0,
                      est_err |-> 0, est_panic |-> 0, skipped |-> 0, committed_unstable |-> 0, not_quiet |-> 0,
-                     auth_disagree |-> 0, waits |-> 0, opp_pairs |-> 0, follow_pairs |-> 0, lock_pairs |-> 0]
+                     auth_disagree |-> 0, waits |-> 0, tau_checked |-> 0, tau_drift |-> 0, bind_base |-> 0, bind_spacing |-> 0, bind_flip |-> 0, bind_lock |-> 0, bind_lead |-> 0, opp_pairs |-> 0, follow_pairs |-> 0, lock_pairs |-> 0]
          /\ auth = <<>> /\ route = <<>> /\ pos = <<>> /\ T = <<>> /\ fixed = <<>>
 
 Names(checks) == LET F == SelectSeq(checks, LAMBDA c : ~c[2]) IN [i \in 1..Len(F) |-> F[i][1]]
@@ -74,6 +74,55 @@ Waits(plans) == Cardinality({<<t, i>> \in UNION {{<<t, i>> : i \in 2..Len(plans[
                    LET a == plans[t][i-1]  b == plans[t][i] IN
                    /\ b[1] = 1 /\ b[3] < INF /\ t <= Len(est)
                    /\ LET e == est[t][a[4] + 1] IN b[3] - a[3] > (IF e[4] = b[4] THEN e[2] ELSE 0) + TolMs})
+\* ---- Level-B conformance of the time gates (drift only, never a verdict): every node the mover timed in this move
+\* must carry exactly the time Dispatch!Advance computes from the authority tables of the previous snapshot:
+\*   tau = Max(base, same-direction spacing | opposing clear + start-up, lockout clear + overlap + start-up, leader clear + spacing)
+NegInf == -INF
+LastAuthOf(au, L) == IF au = <<>> \/ Len(au[L]) = 0 THEN <<0, NegInf, NegInf, NegInf, NegInf, 0>> ELSE au[L][Len(au[L])]
+EdgeDur(t, a, b) == LET e == est[t][a[4] + 1] IN IF e[4] = b[4] THEN e[2] ELSE 0
+\* terms of the gate for the Arrive node at position i of train m's plan in snapshot s, given the previous tables pa
+GateTerms(s, pa, m, i) ==
+  LET pl == s.plan[m]
+      b  == pl[i]
+      L  == b[2]
+      su == est[m][b[4] + 1][10]                                  \* start-up allowance at this node
+      base == IF i = 1 THEN trs[m].depart ELSE pl[i-1][3] + EdgeDur(m, pl[i-1], b)
+      prevA == LastAuthOf(pa, L)
+      fcx   == LastAuthOf(pa, hdr.flip[L])[5]
+      same  == prevA[5] >= fcx
+      spacing == IF same THEN (IF prevA[4] > NegInf /\ prevA[4] < INF THEN prevA[4] + hdr.spacing ELSE NegInf) ELSE NegInf
+      flipg   == IF same THEN NegInf ELSE (IF fcx < INF THEN fcx + su ELSE INF)
+      lockg == LET C == {LastAuthOf(pa, hdr.lock[L][x])[5] : x \in 1..Len(hdr.lock[L])} \ {NegInf}
+               IN IF C = {} THEN NegInf ELSE SetMaxI({IF c < INF THEN c + hdr.overlap + su ELSE INF : c \in C})
+      \* the authority ahead of ours on the link we leave (position of the previous Arrive node)
+      fa == LET J == {j \in 1..(i-1) : pl[j][1] = 1} IN IF J = {} THEN 0 ELSE SetMaxI(J)
+      leadg == IF fa = 0 THEN NegInf
+               ELSE LET A == s.auth[pl[fa][2]]
+                        K == {k \in 1..Len(A) : A[k][1] = m}
+                    IN IF K = {} \/ SetMaxI(K) = 1 THEN NegInf
+                       ELSE LET c == A[SetMaxI(K) - 1][5] IN IF c < INF THEN c + hdr.spacing ELSE INF
+  IN [base |-> base, spacing |-> spacing, flip |-> flipg, lock |-> lockg, lead |-> leadg]
+TauOf(g) == SetMaxI({g.base, g.spacing, g.flip, g.lock, g.lead})
+NewlyTimed(s, m) == {i \in 1..Len(s.plan[m]) : s.plan[m][i][3] < INF /\ i > (IF prev = <<>> THEN 0 ELSE prev.fixed[m])}
+TauStats(s) ==
+  IF s.mover = 0 \/ s.kind # "move" \/ s.mover > Len(est) THEN [n |-> 0, drift |-> 0, base |-> 0, spacing |-> 0, flip |-> 0, lock |-> 0, lead |-> 0]
+  ELSE LET m  == s.mover
+           pa == IF prev = <<>> THEN <<>> ELSE prev.auth
+           I  == NewlyTimed(s, m)
+           \* one row per newly timed node, the gate terms evaluated once (TLC re-evaluates LET bodies by name)
+           Rows == {[i |-> i, arr |-> s.plan[m][i][1] = 1,
+                     g |-> IF s.plan[m][i][1] = 1 THEN GateTerms(s, pa, m, i)
+                           ELSE [base |-> IF i = 1 THEN trs[m].depart ELSE s.plan[m][i-1][3] + EdgeDur(m, s.plan[m][i-1], s.plan[m][i]),
+                                 spacing |-> NegInf, flip |-> NegInf, lock |-> NegInf, lead |-> NegInf]] : i \in I}
+           Bind(r, x) == r.arr /\ x = TauOf(r.g) /\ x > r.g.base
+       IN [n |-> Cardinality(I),
+           drift |-> Cardinality({r \in Rows : ~((s.plan[m][r.i][3] - TauOf(r.g)) \in (-3)..3)}),
+           base |-> Cardinality({r \in Rows : r.arr /\ r.g.base = TauOf(r.g)}),
+           spacing |-> Cardinality({r \in Rows : Bind(r, r.g.spacing)}),
+           flip |-> Cardinality({r \in Rows : Bind(r, r.g.flip)}),
+           lock |-> Cardinality({r \in Rows : Bind(r, r.g.lock)}),
+           lead |-> Cardinality({r \in Rows : Bind(r, r.g.lead)})]
+
 Snap == /\ R.ev = "Snap"
         /\ LET s == R IN
            /\ Report(Names(<< <<"OppExclusive", OppExclusiveOf(hdr, s.plan)>>,
@@ -82,8 +131,10 @@ Snap == /\ R.ev = "Snap"
                               <<"Fifo", FifoOf(hdr, s.plan)>>,
                               <<"MonotonePlan", MonotonePlanOf(s.plan)>>,
                               <<"FinalAllTimed", s.kind = "final" /\ phase = "dispatch_ok" => AllTimedOf(s.plan)>> >>))
-           /\ stats' = [stats EXCEPT
+           /\ stats' = LET ts == TauStats(s) IN [stats EXCEPT
                  !.snaps = @ + 1,
+                 !.tau_checked = @ + ts.n, !.tau_drift = @ + ts.drift, !.bind_base = @ + ts.base,
+                 !.bind_spacing = @ + ts.spacing, !.bind_flip = @ + ts.flip, !.bind_lock = @ + ts.lock, !.bind_lead = @ + ts.lead,
                  !.committed_unstable = @ + (IF prev = <<>> \/ CommittedStableOf(prev.plan, prev.fixed, s.plan) THEN 0 ELSE 1),
                  !.not_quiet = @ + (IF s.fixed = s.free THEN 0 ELSE 1),
                  !.auth_disagree = @ + (IF AuthAgreesRec(s) THEN 0 ELSE 1),
